@@ -174,6 +174,14 @@ def havoc(eng, st, body, extra_alias=None, also_names=(), ordinal=None):
                 s.env = dict(s.env)
                 s.env[n] = Ref(base, "list")
                 continue
+            want = eng.cur.local_sorts.get(n) if eng.cur else None
+            if type(want).__name__ == "ObjT":
+                # an object variable that is REBOUND in the loop: afterwards it names some object of the declared class
+                from .contract import make_symbolic
+                ref, s = make_symbolic(eng, eng.new_base(n), want, s, set())
+                s.env = dict(s.env)
+                s.env[n] = ref
+                continue
             s.env[n] = havoc_value(eng, n, cur)
     # python-level containers mutated through methods (ldrs.append(x)) lose their contents
     for root, _f in store_roots(body):
@@ -269,8 +277,13 @@ def _body_ensures(eng, spec, st, fr, extra, pre, node):
 
 
 def _inv(eng, spec, st, fr, extra):
+    from .ops import BindingError
     ns = eng.namespace(st, entry=fr.fn["entry"], extra=extra)
-    return spec.invariant(eng.S, ns)
+    try:
+        return spec.invariant(eng.S, ns)
+    except BindingError as ex:
+        # the invariant names something the (changed) code no longer has: the obligation cannot be discharged
+        return [(f"the loop invariant binds to the code (missing: {ex})", z3.BoolVal(False))]
 
 
 def while_loop(eng, s, st, fr, k):
